@@ -3,12 +3,15 @@ package props
 import (
 	"fmt"
 	"go/ast"
+	"go/token"
 	"go/types"
 	"sort"
 	"strings"
 
 	"dsverif/internal/an"
 	"dsverif/internal/core"
+
+	"golang.org/x/tools/go/packages"
 )
 
 var ringGuarded = []string{"ringDesc", "ringTokens", "ringTokensByZone", "ringInstanceByToken", "ringZones", "instancesCountPerZone",
@@ -56,6 +59,8 @@ func runC05(c *core.Ctx) {
 	c.Rule("R3", "collision winner = f(two entries): leaving loses, else smaller id wins; LEFT skipped", 2)
 	c.Rule("R4", "normalisation and conflict resolution are applied on the stored map", 2)
 	c.Rule("R5", "tokensEqual compares lengths then elements", 1)
+	c.Rule("R7", "normalizeIngestersMap leaves every token list sorted in the map (in place, or written back on every path)", 1)
+	c.Rule("R8", "no selection loop over tokens starts from the extreme value of the domain (shared with C14.R7)", 1)
 	c.Rule("R6", "first-element reads of token lists are guarded by a non-emptiness check", 1)
 	pkg := c.Prog.Pkg("ring")
 	if pkg == nil {
@@ -190,6 +195,8 @@ func runC05(c *core.Ctx) {
 	c05TokensEqual(c)
 	// ---- R6
 	c05ConstIndex(c)
+	c05Normalize(c, pkg)
+	c14ExtremumAs(c, pkg, "R8")
 }
 
 func isFreshBase(fn *an.Fn, base ast.Expr) bool {
@@ -534,4 +541,84 @@ func c05ConstIndex(c *core.Ctx) {
 	if n == 0 {
 		c.Undec("R6", "index0", pkg.Syntax[0].Pos(), "no constant-index read found")
 	}
+}
+
+// c05Normalize (R7): normalizeIngestersMap leaves every non-empty token list sorted in the map: the
+// list is sorted in place on the entry's own storage whenever IsSorted is false — or, if a copy is
+// sorted instead, the entry is written back on every path of the iteration.
+func c05Normalize(c *core.Ctx, pkg *packages.Package) {
+	fn := an.FindFunc(pkg, "normalizeIngestersMap")
+	if fn == nil {
+		c.Miss("R7", "func=normalizeIngestersMap", "not found")
+		return
+	}
+	c.Analysed(fn.String())
+	g := fn.Graph()
+	loops := rangeLoops(fn, "p0.Ingesters")
+	if len(loops) != 1 {
+		c.Undec("R7", "func=normalizeIngestersMap", fn.Pos(), "expected one loop over the incoming instances")
+		return
+	}
+	loop := loops[0]
+	header, body, _ := g.LoopBlocks(loop)
+	entryTokens := "each(p0.Ingesters).Tokens"
+	var sorts []an.Call
+	var issorted ast.Expr
+	for _, call := range fn.Calls(false) {
+		if !an.InNode(loop, call.Expr) {
+			continue
+		}
+		if (call.Is("sort", "Sort") || call.Is("slices", "Sort") || call.Is("sort", "Stable")) && len(call.Expr.Args) == 1 {
+			sorts = append(sorts, call)
+		}
+		if call.Is("sort", "IsSorted") || call.Is("slices", "IsSorted") {
+			issorted = call.Expr
+		}
+	}
+	if len(sorts) != 1 {
+		c.Viol("R7", "func=normalizeIngestersMap", loop.Pos(), fmt.Sprintf("expected one sort of the instance's tokens per iteration, found %d", len(sorts)))
+		return
+	}
+	// the sort runs whenever the list is non-empty and not sorted
+	bad := []string{}
+	leafFor := func(sorted bool) an.Leaf {
+		return func(e ast.Expr, _ an.Store) an.Tri {
+			if issorted != nil && an.Unparen(e) == issorted {
+				return an.FromBool(sorted)
+			}
+			if be, ok := an.Unparen(e).(*ast.BinaryExpr); ok && be.Op == token.EQL && fn.Canon(be.Y) == "0" && strings.HasPrefix(fn.Canon(be.X), "len(") {
+				return an.F // non-empty list
+			}
+			return an.U
+		}
+	}
+	ex := g.Exec(an.Loc{B: body, I: 0}, []an.Loc{g.Locate(sorts[0].Expr)}, leafFor(false), an.ExecOpts{Header: header})
+	if !ex.Must[0] {
+		bad = append(bad, "a non-empty unsorted list is not sorted on every path")
+	}
+	// in place on the entry's storage, or written back on every path after the sort
+	sc := fn.Canon(sorts[0].Expr.Args[0])
+	inPlace := sc == entryTokens
+	if !inPlace {
+		var wb []an.Loc
+		fn.InspectShallow(func(n ast.Node) bool {
+			if as, ok := n.(*ast.AssignStmt); ok && len(as.Lhs) == 1 && an.InNode(loop, as) {
+				if ix, ok := an.Unparen(as.Lhs[0]).(*ast.IndexExpr); ok && fn.Canon(ix.X) == "p0.Ingesters" && fn.Canon(ix.Index) == "keyof(p0.Ingesters)" && g.NodeBefore(sorts[0].Expr, as) {
+					wb = append(wb, g.Locate(as))
+				}
+			}
+			return true
+		})
+		okWB := false
+		for _, w := range wb {
+			ex2 := g.Exec(g.LocAfter(stmtOf(fn, sorts[0].Expr)), []an.Loc{w}, func(ast.Expr, an.Store) an.Tri { return an.U }, an.ExecOpts{Header: header})
+			if ex2.Must[0] {
+				okWB = true
+			}
+		}
+		if !okWB {
+			bad = append(bad, "the sort works on "+sc+" (not on the entry's own list) and the entry is not written back on every path afterwards")
+		}
+	}
+	c.Check(len(bad) == 0, "R7", "func=normalizeIngestersMap", loop.Pos(), fmt.Sprintf("every non-empty, unsorted token list is sorted (sort argument %s, in place=%v) so that the stored and re-gossiped entry is sorted %v", sc, inPlace, bad), ex.Paths)
 }
